@@ -41,9 +41,24 @@ def programs_for(v):
         yield "salt", ("prog", "e", v, ("u",), ("ret", tuple((f"g{i}", "1") for i in range(16)))), [{"u": i} for i in range(6)]
 
 
+EQUAL_PAIRS = [(1, 1.0), (1.0, 1), (0, 0.0), (0.0, 0), (0.0, -0.0), (-0.0, 0.0), (2, 2.0), (-1, -1.0), (100.0, 100), (1, "1"), ("1", 1), ("a", "a "),
+               (2**53, float(2**53)), (0.5, "0.5"), ("", " ")]
+
+
+def equal_pair_programs():
+    """return statements whose neighbouring groups are == (or look alike) but differ in type / value"""
+    for a, b in EQUAL_PAIRS:
+        for groups in (((a, "1"), (b, "1")), ((a, "1"), (b, "1"), (a, "1")), (("x", "1"), (a, "2"), (b, "2"), ("y", "1"))):
+            yield ("prog", "e", None, ("u",), ("ret", groups)), [{"u": i} for i in range(48)]
+
+
 def _work(units):
     acc = progcheck.Acc()
     for v in units:
+        if v == "__equal_pairs__":
+            for ast, envs in equal_pair_programs():
+                progcheck.check_prog(acc, ast, envs, "lit:equal-neighbours")
+            continue
         for pos, ast, envs in programs_for(v):
             quotes = ['"', "'"] if isinstance(v, str) else ['"']
             for q in quotes:
@@ -70,7 +85,7 @@ def run(res, tier):
         nums += [i, -i] if i else [0]
     for d in lits.DECS:
         nums += [float(d), -float(d)]
-    units = vals + nums
+    units = vals + nums + ["__equal_pairs__"]
     for w in pmap(_work, permuted(units, "c05"), chunk=8):
         res.merge_worker(w)
     res.set("states", res.cov.get("programs", 0))
